@@ -84,6 +84,16 @@ SPECS: dict[str, dict] = {
     "lambdac_p_km_pip__l1520_d1232_kst": dict(
         initial_state="Lambda(c)+", final_state=["p", "K-", "pi+"],
         allowed_intermediate_particles=["Lambda(1520)", "Delta(1232)++", "K*(892)0"]),
+    "lambdac_p_km_pip__l1520_d1232": dict(
+        initial_state="Lambda(c)+", final_state=["p", "K-", "pi+"],
+        allowed_intermediate_particles=["Lambda(1520)", "Delta(1232)++"]),
+    "lambdac_p_km_pip__l1520_l1670": dict(
+        initial_state="Lambda(c)+", final_state=["p", "K-", "pi+"],
+        allowed_intermediate_particles=["Lambda(1520)", "Lambda(1670)"]),
+    "jpsi_p_pbar_pi0__n1440_n1520_bothcharges": dict(
+        initial_state="J/psi(1S)", final_state=["p~", "p", "pi0"],
+        allowed_intermediate_particles=["N(1440)+", "N(1520)~-"],
+        allowed_interaction_types=["strong"]),
     "lambdac_p_km_pip__l1520": dict(
         initial_state="Lambda(c)+", final_state=["p", "K-", "pi+"],
         allowed_intermediate_particles=["Lambda(1520)"]),
